@@ -83,6 +83,19 @@ def _fit_pml(shape, faces, min_interior):
                 thick["thickness"] -= 1
 
 
+def _open_interior(shape, faces):
+    """Per-axis cell range clear of PML layers and of the one-cell PEC/PMC wall layers (a dipole inside a wall cell is
+    clamped by the wall and radiates nothing)."""
+    out = []
+    for ax, (lo, hi) in enumerate(scenes.interior_range(shape, faces)):
+        if faces[f"min_{'xyz'[ax]}"]["kind"] in ("pec", "pmc"):
+            lo += 1
+        if faces[f"max_{'xyz'[ax]}"]["kind"] in ("pec", "pmc"):
+            hi -= 1
+        out.append((lo, hi))
+    return out
+
+
 def _fix_poynting_axis(d):
     if d["type"] == "poynting" and not d.get("keep_all"):
         thin = [a for a in range(3) if d["hi"][a] - d["lo"][a] == 1]
@@ -138,7 +151,7 @@ def case_strategy(draw, ctx):
             s = draw(_region_source(shape, faces, interior, f"src{i}"))
         else:
             s = draw(scenes.source_strategy(shape, steps, faces, kinds=(k,), name=f"src{i}", switches=False,
-                                            interior=interior))
+                                            interior=_open_interior(shape, faces)))
         s["switch"] = _window(draw, steps)
         sources.append(s)
 
